@@ -1785,6 +1785,21 @@ impl TreeProp {
                 backends: vec![(Kind::Full, 3), (Kind::Optimal, 3), (Kind::Pm, if q { 2 } else { 3 }), (Kind::Rln, 2)],
                 nodedup_len: 1, max_len: if q && f == Focus::C07 { 2 } else { 3 }, positions: all(7), full_obs: true, allow: None, dense_after: None, label: "depth7.sparse-removals".into(),
             });
+            // depth 14: removal lists whose members are thousands of positions apart (trait level only: the byte-level API
+            // and the FFI take removal indices as single bytes), all of them set / some of them unset or beyond the leaf count
+            {
+                let d = 14usize;
+                let mut ops = vec![TreeOp::Set(3, 1), TreeOp::Set(5000, 2), TreeOp::Set(12_000, 1), TreeOp::Delete(3)];
+                for r in [vec![3u64, 5000], vec![3, 12_000], vec![5000, 12_000], vec![3, 5000, 12_000], vec![12_000, 3], vec![3, 9000], vec![5000, 16_383]] {
+                    ops.push(TreeOp::Batch(0, vec![], r));
+                }
+                let pos: Vec<u64> = vec![0, 2, 3, 4, 4095, 4096, 4999, 5000, 5001, 8191, 8192, 9000, 11_999, 12_000, 12_001, 16_383];
+                plans.push(ExploreCfg {
+                    focus: f, depth: d, ops,
+                    backends: vec![(Kind::Full, 3), (Kind::Optimal, 3), (Kind::Pm, 3)],
+                    nodedup_len: 1, max_len: if q && f == Focus::C07 { 2 } else { 3 }, positions: pos, full_obs: false, allow: None, dense_after: None, label: "depth14.far-apart-removals".into(),
+                });
+            }
             let run = |a: u64, b: u64| -> Vec<u64> { (a..b).collect() };
             let mut ops = vec![TreeOp::Range(0, pat(4)), TreeOp::Set(30, 1), TreeOp::Append(2), TreeOp::Delete(5)];
             for (a, b) in [(0u64, 16u64), (2, 18), (0, 17), (8, 32), (0, 32), (15, 32)] {
